@@ -206,6 +206,8 @@ class Realizer:
         if o.name in self.defined:
             return
         self.defined[o.name] = o
+        for b in o.base_specs:
+            self.define_obj(b)
         # first make sure everything the fields mention is defined (may recurse)
         field_exprs = []
         for f in o.fields:
